@@ -6,6 +6,7 @@ pub mod c02;
 pub mod c08;
 pub mod c09;
 pub mod c10;
+pub mod c14;
 pub mod c15;
 pub mod serial;
 pub mod signnode;
@@ -21,6 +22,7 @@ pub fn all() -> Vec<Box<dyn Scenario>> {
         Box::new(c10::Adversary { judge: c10::Judge::Model }),
         Box::new(c10::Adversary { judge: c10::Judge::Invariants }),
         Box::new(c02::C02),
+        Box::new(c14::C14),
         Box::new(c15::C15Read),
         Box::new(c15::C15Write),
         Box::new(c15::C15Compositions),
@@ -60,6 +62,7 @@ pub fn expected_probes(name: &str) -> Vec<&'static str> {
             "abandoned_transfer_then_reset",
         ],
         "c12-flood" => vec!["counter_taken_past_65535"],
+        "c14-shared-bus" => vec!["two_signs_in_PixelsInProgress", "chunk_absorbed_by_two_signs", "absent_address", "reply_from_sign_index_ge_1", "task_switches"],
         "c02-wire-damage" => vec!["ok_same_frame_case_change", "ok_same_frame_terminator_only", "err_invalid", "err_length", "err_checksum", "variants_through_stream_reader", "lf_inserted_mid_line"],
         "c15-read" => vec!["eintr", "eof", "io_error", "eintr_mid_line", "line_without_lf_at_eof", "error_at_first_call", "error_at_last_call", "hard_error_placements"],
         "c15-write" => vec!["eintr", "short_write", "io_error", "write_zero", "short_write_1_byte", "hard_error_placements", "write_zero_placements"],
